@@ -12,8 +12,18 @@ def make(rec, Question):
                 io.write_line("<info>out-%s</info>" % name, lvl if lvl else None)
                 io.error_line("<info>err-%s</info>" % name, lvl if lvl else None)
             rec["answer"] = Question("Name?", "dflt").ask(io)
+            given = []
             for a in args.arguments().values():
-                if a == "boom" or (isinstance(a, list) and "boom" in a):
-                    raise RuntimeError("handler failed")
+                given += a if isinstance(a, list) else [a]
+            # what a handler does to the formatter of ITS run must not be there in the next run (seeded change C17-i)
+            if "style" in given:
+                from clikit.api.formatter import Style
+                io.output.formatter.add_style(Style("zz").fg("red").bold())
+            if "style" in given or "usezz" in given:
+                io.write_line("<zz>maybe styled</zz>")
+            if "opentag" in given:
+                io.write_line("<info>never closed")
+            if "boom" in given:
+                raise RuntimeError("handler failed")
             return 0
     return Handler
